@@ -85,6 +85,7 @@ type node struct {
 	selfApl []selfMsg
 
 	snapReports []uint64
+	handedCS    []handedCS
 
 	// application state machine (volatile copy; durable copy lives in disk)
 	appIndex uint64
@@ -118,6 +119,7 @@ type node struct {
 	lastHeard  map[uint64]int
 	hbAck      map[uint64]int // peer -> max createStep of a heartbeat whose response was delivered in this leadership
 	grants     map[uint64]bool
+	answers    map[uint64]bool // vote answers delivered in the current (pre-)candidacy, first answer per voter
 	pregrants  map[uint64]bool
 	est        uint64 // C16 reference uncommitted size
 	maxAck     map[uint64]uint64
@@ -386,6 +388,7 @@ func (w *World) start(n *node, applied uint64, first bool) {
 	n.rd, n.rdMetas = nil, nil
 	n.appQ, n.aplQ, n.selfApp, n.selfApl = nil, nil, nil, nil
 	n.snapReports = nil
+	n.handedCS = nil
 	n.outNow, n.outAfter = nil, nil
 	n.appIndex = applied
 	n.appState = d.StateAt[applied]
@@ -397,7 +400,7 @@ func (w *World) start(n *node, applied uint64, first bool) {
 	n.agreeUpTo = 0
 	n.ticksSinceLeader = 0
 	n.readRecv = map[string]int{}
-	n.grants, n.pregrants = nil, nil
+	n.grants, n.pregrants, n.answers = nil, nil, nil
 	n.est = 0
 	n.maxAck = map[uint64]uint64{}
 	n.streams = map[uint64]*stream{}
